@@ -638,6 +638,11 @@ class AssociationSocket:
         sock = cast(socket.socket, self.socket)
         try:
             sock.shutdown(socket.SHUT_RDWR)
+        except Exception:
+            # Raises if the peer has already closed the connection
+            pass
+
+        try:
             sock.close()
         except Exception:
             pass
